@@ -277,7 +277,22 @@ def forms(e):
     fs = [('borrowed_item', 'push_borrowed(self, v)')]
     for n, f, _ in elem_views(e):
         fs.append((n, f'Push::push(self, {f("v")})'))
+    fs += array_forms(e)
     return fs
+
+def array_forms(e):
+    """the array input forms ([T; N], &[T; N], &&[T; N]) of the top-level region, for values of length 1..3;
+    other lengths fall back to the canonical form"""
+    k = e[0]; out = []
+    fallback = 'push_borrowed(self, v)'
+    def arms(fmt):
+        return 'match v.len() { ' + ' '.join(fmt.format(n=n) for n in (1, 2, 3)) + f' _ => {fallback} }}'
+    if k == 'own' or (k in ('sl', 'cols') and ref_ok(e[1])) or k == 'huf':
+        out.append(('array', arms('{n} => match <[_; {n}]>::try_from(v.clone()) {{ Ok(a) => Push::push(self, a), Err(_) => unreachable!() }},')))
+        out.append(('ref_array', arms('{n} => Push::push(self, <&[_; {n}]>::try_from(v.as_slice()).unwrap()),')))
+    if k == 'own' or (k == 'sl' and ref_ok(e[1])):
+        out.append(('refref_array', arms('{n} => Push::push(self, &<&[_; {n}]>::try_from(v.as_slice()).unwrap()),')))
+    return out
 
 def size_slots(e, acc=None):
     """pre-order list of the Rust types whose size_of the model needs: for every SliceRegion with a
